@@ -1,7 +1,7 @@
 """C06 — Fq and Fr arithmetic is exact integer arithmetic modulo q and r (structural clauses)."""
 from core import report
 from core.sm9 import Repo
-from . import shared, field, consts, ladder
+from . import shared, field, consts, ladder, carry
 from .c13 import rule_canon_conv
 from . import conv2
 
@@ -29,11 +29,11 @@ def run(ctx):
     closed, prim, r_step = shared.classify_u256(repo)
     rules = [consts.rule_const("C06", repo), shared.rule_guard(repo), field.rule_guard_extra("C06", repo), r_step, field.rule_inv_none("C06", repo), field.rule_limb_predicates("C06", repo),
              field.rule_ops_forward("C06", repo, ["crate::fields::fp::Fr", "crate::fields::fp::Fq", "crate::Fr", "crate::Fq"]),
-             ladder.rule_ladder("C06", repo, ladders(repo)), field.rule_bits("C06", repo), rule_canon_conv(repo), conv2.rule_scalar_encoders("C06", repo, conv2.make_conv(repo))]
+             ladder.rule_ladder("C06", repo, ladders(repo)), field.rule_bits("C06", repo), rule_canon_conv(repo), conv2.rule_scalar_encoders("C06", repo, conv2.make_conv(repo)), carry.rule_carry_chain("C06", repo)]
     return report.emit(
         "C06", ctx.tier, ctx.seed, rules, ctx.started,
         "Montgomery constants (R, R², −p⁻¹) by defining relation and paired with their own type at every modular call site; truth tables of every modulus-boundary comparison over the "
         "ordering domain (conditional subtraction, borrow-add, negation, range check, division, halving, root sign); every modular U256 operation exits through the conditional "
-        "subtraction; inverse None ⇔ zero; all operator forms forward to one implementation with operands in order; pow is a left-to-right ladder over canonical bits.",
+        "subtraction; inverse None ⇔ zero; all operator forms forward to one implementation with operands in order; pow is a left-to-right ladder over canonical bits; a carry pending across the iterations of a Montgomery multiply / square loop is read on every path through the loop body.",
         shared.ASSUMPTIONS,
-        ["carry chains inside mul / square / sum_of_products, the binary Euclid inversion, i.e. the numerical results"])
+        ["the values carried inside mul / square / sum_of_products (only that no iteration steps over a pending carry is decided), the binary Euclid inversion, i.e. the numerical results"])
